@@ -20,6 +20,7 @@ RULE = (
     "experiment and sample permutations. Non-trivial = >=2 plates of different sizes (padding exercised) or a size-1 plate. distinct = distinct case JSON."
     ' Also: one call whose padded work array has 34 million entries (thorough: three).'
     ' Every scorer object also receives a call that fails part-way (distance matrix of another size) before it is used again.'
+    ' Also: large plates with means on two scales (one sample 1e5 .. 1e7 away) through the homoscedastic and heteroscedastic entry points.'
 )
 ASSUMPTIONS = [
     "plates have >=1 experiment; means bounded so no single term overflows (finiteness is claimed only when some triple has positive distance)",
@@ -167,6 +168,10 @@ def _cmp(got, ref, sub, what):
 def exhaustive(tier):
     # one call whose padded work array (plates x triples x experiments) has tens of millions of entries: a tiny plate scored next to
     # a plate of thousands of experiments (one in the quick tier, about 2 GB and some seconds)
+    # large plates whose predicted means live on two scales at once: a few posterior samples about 1 apart, another one 10**5 ..
+    # 10**7 away (a diverged chain) - through all three function entry points
+    for n_, e_, off_ in [(6, 8000, 1e6), (32, 300, 1e7)] + ([(6, 70000, 1e5), (12, 3000, 1e7), (20, 700, 1e6)] if tier != "quick" else []):
+        yield {"kind": "two_scales", "n": n_, "E": e_, "offset": off_, "seed": n_ + e_}
     yield {"kind": "big_tensor", "n": 31, "sizes": [3, 3800], "seed": 31}
     if tier != "quick":
         yield {"kind": "big_tensor", "n": 29, "sizes": [5, 2, 4700], "seed": 29}
@@ -206,9 +211,35 @@ def _check_big_tensor(case, gd):
     return {"nontrivial": True, "labels": ["big_tensor"], "counts": {"big_tensor_elements": len(case["sizes"]) * math.comb(n, 3) * max(case["sizes"])}}
 
 
+def _check_two_scales(case, gd):
+    n, e = case["n"], case["E"]
+    r = np.random.default_rng(case["seed"])
+    d = r.uniform(0.2, 2.0, size=(n, n))
+    d = d + d.T
+    np.fill_diagonal(d, 0)
+    m = r.normal(scale=0.5, size=(n, e))
+    m[n - 1] += case["offset"]  # one sample far away from the others
+    m[0] -= 0.3 * case["offset"] if n > 8 else 0.0
+    small = r.normal(scale=0.5, size=(n, 3))
+    small[n - 1] += case["offset"]
+    v0 = 0.7
+    means, var = [small, m], [np.full((n, 3), v0), np.full((n, e), v0)]
+    ref = [_vector_reference(mm_, vv_, d) for mm_, vv_ in zip(means, var)]
+    outs = {
+        "homoscedastic": gd.dbal_fast_gaussian_scoring_homoscedastic(means, np.full((2, n), v0), d, np.random.default_rng(1), max_combos=5000),
+        "heteroscedastic": gd.dbal_fast_gaussian_scoring_heteroscedastic(means, var, d, np.random.default_rng(2), max_combos=5000),
+    }
+    for name, got in outs.items():
+        for p_, (g, rf) in enumerate(zip([float(x) for x in got], ref)):
+            require(_close(g, rf), "two_scales.%s.equals_direct" % name, lambda: "%s entry point, %d samples (one %g away from the others), plate of %d experiments: %r, direct estimator %r" % (name, n, case["offset"], means[p_].shape[1], g, rf))
+    return {"nontrivial": True, "labels": ["two-scales"]}
+
+
 def check_case(case):
     from batchie.scoring import gaussian_dbal as gd
 
+    if case["kind"] == "two_scales":
+        return _check_two_scales(case, gd)
     if case["kind"] == "big_tensor":
         return _check_big_tensor(case, gd)
     if case["kind"] == "raw":
